@@ -44,3 +44,13 @@ Theorem C11_rendered_member_is_parsed : forall m s, RMember m s -> forall r f, (
   p_member f (s ++ r) = POk (m, r).
 Proof. exact member_parse. Qed.
 Print Assumptions C11_rendered_member_is_parsed.
+
+(* and conversely: the parser accepts ONLY texts the grammar derives - together, exactly the language *)
+From VL Require Import ConverseProofs.
+Theorem C11_accepted_iff_rendered : forall s i, parse_idl s = POk i <-> RIdl i s.
+Proof. exact parse_idl_iff. Qed.
+Print Assumptions C11_accepted_iff_rendered.
+
+Theorem C11_accepted_type_is_rendering : forall f s t r, p_type f s = POk (t, r) -> exists u, s = u ++ r /\ RType t u.
+Proof. exact p_type_renders. Qed.
+Print Assumptions C11_accepted_type_is_rendering.
